@@ -18,6 +18,8 @@ DECIDED = ('(a) every return of Ombott._handle - including the early 400 for an 
            'and the framework\'s own stored responses (errors_map) carry no cookies and no list-valued headers; (d) the only '
            'writes to module-level / class-level containers are the frozen table (error template lines: slice assignment of '
            'file content; filter cache: keyed by rule text at registration) - none keyed by request data.')
+DECIDED_MORE = ('Also: per-request __init__ and the other methods of the long-lived request/response objects add only to containers that __init__ re-creates; no store into a caught response/error object.')
+DECIDED = DECIDED + ' ' + DECIDED_MORE
 NOT_DECIDED = ('equality of each response with the fresh-application response over all histories; liveness counts at run time '
                '(only the structural retention paths above).')
 ASSUMPTIONS = ['request.__init__ / response.__init__ themselves do not raise', 'user handlers are outside the claim']
